@@ -112,7 +112,17 @@ func genProtocol(p *pworld, run func(string) string, r *rng.R, maxOps int) {
 	run("pinit")
 	n := r.Range(4, maxOps)
 	for i := 0; i < n; i++ {
-		switch r.Pick(30, 30, 18, 12, 5, 5, 4) {
+		switch r.Pick(30, 30, 18, 12, 5, 5, 4, 4) {
+		case 7:
+			// a request the server refuses (unknown dc-location) or serves, on a raw Tso stream: a refusal has to be an
+			// error, not a response without a timestamp
+			// (a count of 0 is not used: the global allocator in local-TSO mode answers it with a timestamp that owns
+			// no value, the plain path refuses it – neither touches the property)
+			if r.Bool(2, 3) {
+				run(fmt.Sprintf("rawtso 9 %d", r.Range(1, 3)))
+			} else {
+				run(fmt.Sprintf("rawtso %d %d", r.Range(0, 2), r.Range(1, 3)))
+			}
 		case 6:
 			// the global allocator ahead of everything, a global request (which writes its MaxTS into the local
 			// allocators), then every local allocator steps down and comes back: it must resume above that request
